@@ -100,7 +100,7 @@ def cases(tier, r):
     fresh = argstore.Fresh()
     args, kwargs = argstore.gen_init(r, sig, fresh, malformed=0.0, allow_tv=True)
     ops = argstore.gen_tag_ops(r, sig, fresh, r.randint(1, 8))
-    ops = [o for o in ops if o[0] not in ('update_callable', 'copy_with', 'suspend', 'resume')]
+    ops = [o for o in ops if o[0] not in ('update_callable', 'copy_with', 'suspend', 'resume', 'enter_suspend', 'exit_suspend')]
     yield 'flat', {'p': 'argstore', 'sig': sig, 'args': args, 'kwargs': kwargs, 'ops': ops,
                    'kind': r.choice(KINDS)}
   # stage B: whole DAGs
